@@ -385,7 +385,23 @@ pub struct HsResult {
 }
 
 /// h11c_handshake on a fresh context; reports what was enqueued and what the client was sent
-pub async fn op_hhs(segs: &[Vec<u8>], tbl: &str) -> (String, String, Option<HsResult>) {
+/// the table entry for the resource of a request head, if std reads it as an IPv6 socket address
+pub fn tbl_for_head(segs: &[Vec<u8>]) -> String {
+    let all: Vec<u8> = segs.concat();
+    let line = all.split(|b| *b == b'\n').next().unwrap_or(&[]);
+    let toks: Vec<&[u8]> = line
+        .split(|b| matches!(*b, b' ' | b'\t' | b'\r' | 0x0c | b'\n'))
+        .filter(|t| !t.is_empty())
+        .collect();
+    if toks.len() >= 2 {
+        tbl_s(&[], &[toks[1].to_vec()])
+    } else {
+        "tbl=-".into()
+    }
+}
+
+pub async fn op_hhs(segs: &[Vec<u8>], _tbl: &str) -> (String, String, Option<HsResult>) {
+    let tbl = tbl_for_head(segs);
     let case = format!("HHS {} {}", segs_s(segs), tbl);
     let contexts: Arc<crate::context::GlobalState> = Default::default();
     let ctx = contexts.create_context("l".into(), "127.0.0.1:1".parse().unwrap()).await;
@@ -866,4 +882,23 @@ pub fn gen_headers(rng: &mut Rng) -> Vec<(String, String)> {
             (k.to_string(), v)
         })
         .collect()
+}
+
+// ------------------------------------------------------------------ datagrams -> Fragments<Frame>
+/// feed a sequence of QUIC datagrams to a fresh Fragments<Frame> (5 s reassembly timeout, no timer calls)
+pub fn op_rfr(dgrams: &[Vec<u8>]) -> (String, String) {
+    use crate::common::fragment::Fragments;
+    let case = format!("RFR {}", segs_s(dgrams));
+    let r = no_panic(|| {
+        let mut f: Fragments<Frame> = Fragments::new(std::time::Duration::from_secs(3600));
+        let mut o = vec![];
+        for d in dgrams {
+            match f.reassemble(Bytes::copy_from_slice(d)) {
+                None => o.push("none".to_string()),
+                Some(fr) => o.push(format!("[{}]", frame_s(&fr))),
+            }
+        }
+        o.join(" ")
+    });
+    (case, r.unwrap_or_else(|| "panic".into()))
 }
